@@ -438,17 +438,29 @@ def rowsOf {α} (cols : Nat) : Nat → List α → List (List α)
 
 def rowName (y : Nat) : Str := lit "row" ++ showNat y
 
-def rowLeaves (rows : List (List Str)) : List KV :=
-  let rec go (y : Nat) : List (List Str) → List KV
-    | [] => []
-    | r :: rs => KV.leaf (rowName y) (unwords r) :: go (y + 1) rs
-  go 0 rows
+/-- `"row<y>" "<tokens joined by blanks>"` for consecutive `y`. -/
+def rowLeavesFrom (y : Nat) : List (List Str) → List KV
+  | [] => []
+  | r :: rs => KV.leaf (rowName y) (unwords r) :: rowLeavesFrom (y + 1) rs
+
+def rowLeaves (rows : List (List Str)) : List KV := rowLeavesFrom 0 rows
 
 def dispSize (power : Nat) : Nat := 2 ^ power + 1
 
-/-- `_export_disp_rowset`: one block, one row per `y`, the per-vertex strings joined by spaces. -/
-def exportRowset (name : String) (size : Nat) (verts : List DVert) (f : DVert → Str) : KV :=
-  kBlock name (rowLeaves ((rowsOf size size (verts.map f)).map fun r => r))
+/-- `_export_disp_rowset`: one block, one row per `y`; every vertex contributes its tokens
+(`str(value)` of a vector is its tokens joined by blanks, so joining the per-vertex strings by
+blanks is joining all tokens of the row by blanks). -/
+def exportRowset (name : String) (size : Nat) (verts : List DVert) (toks : DVert → List Str) : KV :=
+  kBlock name (rowLeaves ((rowsOf size size verts).map fun r => r.flatMap toks))
+
+def triToks (v : DVert) : List Str := [showInt v.triA, showInt v.triB]
+
+def colorToks (i : Nat) (v : DVert) : List Str :=
+  match v.colors with
+  | some cs => (cs.getD i v3one).toks
+  | none => v3one.toks
+
+def hasBlend (verts : List DVert) : Bool := verts.any (fun v => !(v.blend.toks.all isZeroTok))
 
 /-- `_DISP_COLL_TO_FLAG[flags & COLL_ALL]`: the smallest file value with these collision bits. -/
 def collToFlag (coll : Nat) : Nat :=
@@ -458,33 +470,43 @@ def collToFlag (coll : Nat) : Nat :=
 def flagToColl (i : Nat) : Nat :=
   (if (i / 2) % 2 == 0 then 1 else 0) + (if (i / 4) % 2 == 0 then 2 else 0) + (if (i / 8) % 2 == 0 then 4 else 0)
 
-def triRow (size : Nat) (row : List DVert) : Str :=
-  unwords ((row.take (size - 1)).flatMap fun v => [showInt v.triA, showInt v.triB])
+def dispHead (d : Disp) : List KV := [
+  kInt "power" d.power,
+  kLeaf "startposition" (wrap '[' ']' d.pos.str),
+  kInt "flags" (collToFlag d.coll),
+  kLeaf "elevation" d.elev,
+  kBool "subdiv" d.subdiv]
+
+/-- the children of a `dispinfo` block, given the children of each array block -/
+def dispKidsOf (head : List KV) (normals distances offsets offsetNormals alphas tris allowed : List KV)
+    (multi : Option (List KV × List KV × List KV × List KV × List KV × List KV)) : List KV :=
+  head ++ ([kBlock "normals" normals, kBlock "distances" distances, kBlock "offsets" offsets,
+    kBlock "offset_normals" offsetNormals, kBlock "alphas" alphas, kBlock "triangle_tags" tris,
+    kBlock "allowed_verts" allowed] ++
+    (match multi with
+     | some (mb, ab, c0, c1, c2, c3) =>
+       [kBlock "multiblend" mb, kBlock "alphablend" ab, kBlock "multiblend_color_0" c0,
+        kBlock "multiblend_color_1" c1, kBlock "multiblend_color_2" c2, kBlock "multiblend_color_3" c3]
+     | none => []))
+
+def rowsetKids (size : Nat) (verts : List DVert) (toks : DVert → List Str) : List KV :=
+  rowLeaves ((rowsOf size size verts).map fun r => r.flatMap toks)
+
+def triKids (size : Nat) (verts : List DVert) : List KV :=
+  rowLeaves ((rowsOf size (size - 1) verts).map fun r => (r.take (size - 1)).flatMap triToks)
 
 def exportDisp (multiblend : Bool) (d : Disp) : KV :=
   let size := dispSize d.power
-  kBlock "dispinfo" ([
-    kInt "power" d.power,
-    kLeaf "startposition" (wrap '[' ']' d.pos.str),
-    kInt "flags" (collToFlag d.coll),
-    kLeaf "elevation" d.elev,
-    kBool "subdiv" d.subdiv,
-    exportRowset "normals" size d.verts (·.normal.str),
-    exportRowset "distances" size d.verts (·.dist),
-    exportRowset "offsets" size d.verts (·.offset.str),
-    exportRowset "offset_normals" size d.verts (·.offsetNorm.str),
-    exportRowset "alphas" size d.verts (·.alpha),
-    kBlock "triangle_tags" (rowLeaves (((rowsOf size (size - 1) d.verts).map fun r => [triRow size r]))),
-    kBlock "allowed_verts" [kLeaf "10" (unwords (d.allowed.map showInt))]] ++
-    (if multiblend && d.verts.any (fun v => !(v.blend.toks.all isZeroTok)) then
-      [exportRowset "multiblend" size d.verts (·.blend.str),
-       exportRowset "alphablend" size d.verts (·.malpha.str)] ++
-      (List.range 4).map (fun i =>
-        exportRowset ("multiblend_color_" ++ toString i) size d.verts fun v =>
-          match v.colors with
-          | some cs => (cs.getD i v3one).str
-          | none => v3one.str)
-     else []))
+  kBlock "dispinfo" (dispKidsOf (dispHead d)
+    (rowsetKids size d.verts (·.normal.toks)) (rowsetKids size d.verts (fun v => [v.dist]))
+    (rowsetKids size d.verts (·.offset.toks)) (rowsetKids size d.verts (·.offsetNorm.toks))
+    (rowsetKids size d.verts (fun v => [v.alpha])) (triKids size d.verts)
+    [kLeaf "10" (unwords (d.allowed.map showInt))]
+    (if multiblend && hasBlend d.verts then
+      some (rowsetKids size d.verts (·.blend.toks), rowsetKids size d.verts (·.malpha.toks),
+            rowsetKids size d.verts (colorToks 0), rowsetKids size d.verts (colorToks 1),
+            rowsetKids size d.verts (colorToks 2), rowsetKids size d.verts (colorToks 3))
+     else none))
 
 def pointLeaves (i : Nat) : List V3 → List KV
   | [] => []
@@ -802,33 +824,38 @@ def parseUV (v : Str) : Except Err UV :=
     if isNum a && isNum b && isNum c && isNum d && isNum e then .ok ⟨a, b, c, d, e⟩ else .error .uvAxis
   | _ => .error .uvAxis
 
-/-- rows of one displacement array: `(y, tokens)` for every `row<y>` child of every block `name`. -/
-def dispRows (name : String) (width : Nat) (dispKids : List KV) : Except Err (List (Nat × List Str)) :=
-  let rec rows : List KV → Except Err (List (Nat × List Str))
-    | [] => pure []
-    | k :: ks =>
-      if (lit "row").isPrefixOf k.fname then
-        match parseInt? (k.fname.drop 3), k with
-        | some (.ofNat y), .leaf _ v =>
-          let toks := splitWs v
-          if toks.length != width then .error .rowLength
-          else do
-            let r ← rows ks
-            pure ((y, toks) :: r)
-        | some _, .leaf _ _ => .error .rowIndex
-        | none, _ => .error .badInt
-        | _, .block _ _ => .error .leafKv
-      else rows ks
-  let rec blocks : List KV → Except Err (List (Nat × List Str))
-    | [] => pure []
-    | k :: ks =>
-      if named name k then do
-        let cs ← blockKids k
-        let a ← rows cs
-        let b ← blocks ks
-        pure (a ++ b)
-      else blocks ks
-  blocks dispKids
+/-- `_iter_disp_row` on the children of one array block: `(y, tokens)` for every `row<y>` child. -/
+def rowsOfBlock (width : Nat) : List KV → Except Err (List (Nat × List Str))
+  | [] => .ok []
+  | k :: ks =>
+    if (lit "row").isPrefixOf k.fname then
+      match parseInt? (k.fname.drop 3), k with
+      | some (.ofNat y), .leaf _ v =>
+        if (splitWs v).length != width then .error .rowLength
+        else
+          match rowsOfBlock width ks with
+          | .error e => .error e
+          | .ok r => .ok ((y, splitWs v) :: r)
+      | some _, .leaf _ _ => .error .rowIndex
+      | none, _ => .error .badInt
+      | _, .block _ _ => .error .leafKv
+    else rowsOfBlock width ks
+
+/-- rows of one displacement array: every `row<y>` child of every block `name` (`find_children`). -/
+def dispRows (name : String) (width : Nat) : List KV → Except Err (List (Nat × List Str))
+  | [] => .ok []
+  | k :: ks =>
+    if named name k then
+      match blockKids k with
+      | .error e => .error e
+      | .ok cs =>
+        match rowsOfBlock width cs with
+        | .error e => .error e
+        | .ok a =>
+          match dispRows name width ks with
+          | .error e => .error e
+          | .ok b => .ok (a ++ b)
+    else dispRows name width ks
 
 def setAt {α} (l : List α) (i : Nat) (f : α → α) : List α :=
   match l, i with
@@ -836,17 +863,33 @@ def setAt {α} (l : List α) (i : Nat) (f : α → α) : List α :=
   | a :: r, 0 => f a :: r
   | a :: r, i + 1 => a :: setAt r i f
 
+/-- columns `x, x+1, …, x+n-1` of row `y`: vertex `y*size + x` is updated from its `per` tokens. -/
+def applyRowFrom (size per : Nat) (upd : DVert → List Str → Except Err DVert) (y : Nat) (toks : List Str) :
+    Nat → Nat → List DVert → Except Err (List DVert)
+  | _, 0, vs => .ok vs
+  | x, n + 1, vs =>
+    match vs[y * size + x]? with
+    | none => .error .rowIndex
+    | some v =>
+      match upd v ((toks.drop (per * x)).take per) with
+      | .error e => .error e
+      | .ok v' => applyRowFrom size per upd y toks (x + 1) n (setAt vs (y * size + x) fun _ => v')
+
 /-- apply `upd` to vertex `(x, y)` for every group of `per` tokens of every row. -/
-def applyRows (size per : Nat) (cnt : Nat) (rows : List (Nat × List Str))
-    (upd : DVert → List Str → Except Err DVert) (verts : List DVert) : Except Err (List DVert) :=
-  rows.foldlM (init := verts) fun vs (y, toks) =>
-    (List.range cnt).foldlM (init := vs) fun vs x =>
-      let idx := y * size + x
-      match vs[idx]? with
-      | none => .error .rowIndex
-      | some v => do
-        let v' ← upd v ((toks.drop (per * x)).take per)
-        pure (setAt vs idx fun _ => v')
+def applyRows (size per cnt : Nat) (upd : DVert → List Str → Except Err DVert) :
+    List (Nat × List Str) → List DVert → Except Err (List DVert)
+  | [], vs => .ok vs
+  | (y, toks) :: r, vs =>
+    match applyRowFrom size per upd y toks 0 cnt vs with
+    | .error e => .error e
+    | .ok vs' => applyRows size per cnt upd r vs'
+
+/-- one array of the displacement: every row of every block `name`, `cnt` vertices per row. -/
+def applyRowset (name : String) (size per cnt : Nat) (upd : DVert → List Str → Except Err DVert)
+    (cs : List KV) (verts : List DVert) : Except Err (List DVert) :=
+  match dispRows name (per * cnt) cs with
+  | .error e => .error e
+  | .ok rows => applyRows size per cnt upd rows verts
 
 def num3 (t : List Str) : Except Err V3 :=
   match t with
@@ -872,60 +915,113 @@ def blankVert : DVert :=
   { normal := v3zero, dist := lit "0.0", offset := v3zero, offsetNorm := v3zero, alpha := lit "0.0",
     triA := 9, triB := 9, blend := v4zero, malpha := v4zero, colors := none }
 
-def parseDisp (cs : List KV) : Except Err Disp := do
-  let power := getInt "power" 4 cs
-  if !(power == 0 || power == 1 || power == 2 || power == 3 || power == 4) then throw .dispPower
-  let power := power.toNat
-  let pos := getV3 "startposition" v3zero cs
-  let elev := getFloat "elevation" (lit "0.0") cs
-  let fl := getInt "flags" 0 cs
-  if !(0 ≤ fl && fl ≤ 15) then throw .dispFlags
-  let coll := flagToColl fl.toNat
-  let subdiv := getBool "subdiv" false cs
-  let vertKey ← match findKey "allowed_verts" cs with
-    | some k => blockKids k
-    | none => throw .noAllowedVerts
-  let allowed ←
-    if vertKey.any (named "10") then
-      match getLeaf "10" vertKey with
-      | some v => (splitWs v).mapM fun t => match parseInt? t with
-        | some i => pure i
-        | none => throw Err.badInt
-      | none => throw .leafKv
-    else pure []      -- NOT modelled: the 5 x int64 form of Strata Source
-  if allowed.length != 10 then throw .allowedVerts
-  let size := if power == 0 then 0 else dispSize power
-  let verts := List.replicate (size * size) blankVert
-  let verts ← applyRows size 3 size (← dispRows "normals" (3 * size) cs)
-    (fun v t => do pure { v with normal := ← num3 t }) verts
-  let verts ← applyRows size 3 size (← dispRows "offsets" (3 * size) cs)
-    (fun v t => do pure { v with offset := ← num3 t }) verts
-  let verts ← applyRows size 3 size (← dispRows "offset_normals" (3 * size) cs)
-    (fun v t => do pure { v with offsetNorm := ← num3 t }) verts
-  let verts ← applyRows size 1 size (← dispRows "alphas" size cs)
-    (fun v t => do pure { v with alpha := ← num1 t }) verts
-  let verts ← applyRows size 1 size (← dispRows "distances" size cs)
-    (fun v t => do pure { v with dist := ← num1 t }) verts
-  let tcount := 2 ^ power
-  let verts ← applyRows size 2 tcount (← dispRows "triangle_tags" (2 * tcount) cs)
-    (fun v t => match t with
-      | [a, b] => do pure { v with triA := ← triTag a, triB := ← triTag b }
-      | _ => throw .rowLength) verts
-  if !cs.any (named "multiblend") then
-    return { power, pos, elev, coll, subdiv, allowed, verts }
-  let verts := verts.map fun v => { v with colors := some [v3one, v3one, v3one, v3one] }
-  let setCol (i : Nat) (v : DVert) (t : List Str) : Except Err DVert := do
-    let c ← num3 t
-    pure { v with colors := v.colors.map fun l => setAt l i fun _ => c }
-  let verts ← applyRows size 3 size (← dispRows "multiblend_color_0" (3 * size) cs) (setCol 0) verts
-  let verts ← applyRows size 3 size (← dispRows "multiblend_color_1" (3 * size) cs) (setCol 1) verts
-  let verts ← applyRows size 3 size (← dispRows "multiblend_color_2" (3 * size) cs) (setCol 2) verts
-  let verts ← applyRows size 3 size (← dispRows "multiblend_color_3" (3 * size) cs) (setCol 3) verts
-  let verts ← applyRows size 4 size (← dispRows "multiblend" (4 * size) cs)
-    (fun v t => do pure { v with blend := ← num4 t }) verts
-  let verts ← applyRows size 4 size (← dispRows "alphablend" (4 * size) cs)
-    (fun v t => do pure { v with malpha := ← num4 t }) verts
-  pure { power, pos, elev, coll, subdiv, allowed, verts }
+def updNormal (v : DVert) (t : List Str) : Except Err DVert :=
+  match num3 t with
+  | .error e => .error e
+  | .ok n => .ok { v with normal := n }
+def updOffset (v : DVert) (t : List Str) : Except Err DVert :=
+  match num3 t with
+  | .error e => .error e
+  | .ok n => .ok { v with offset := n }
+def updOffsetNorm (v : DVert) (t : List Str) : Except Err DVert :=
+  match num3 t with
+  | .error e => .error e
+  | .ok n => .ok { v with offsetNorm := n }
+def updAlpha (v : DVert) (t : List Str) : Except Err DVert :=
+  match num1 t with
+  | .error e => .error e
+  | .ok n => .ok { v with alpha := n }
+def updDist (v : DVert) (t : List Str) : Except Err DVert :=
+  match num1 t with
+  | .error e => .error e
+  | .ok n => .ok { v with dist := n }
+def updTri (v : DVert) (t : List Str) : Except Err DVert :=
+  match t with
+  | [a, b] =>
+    match triTag a with
+    | .error e => .error e
+    | .ok ta =>
+      match triTag b with
+      | .error e => .error e
+      | .ok tb => .ok { v with triA := ta, triB := tb }
+  | _ => .error .rowLength
+def updColor (i : Nat) (v : DVert) (t : List Str) : Except Err DVert :=
+  match num3 t with
+  | .error e => .error e
+  | .ok c => .ok { v with colors := v.colors.map fun l => setAt l i fun _ => c }
+def updBlend (v : DVert) (t : List Str) : Except Err DVert :=
+  match num4 t with
+  | .error e => .error e
+  | .ok n => .ok { v with blend := n }
+def updMalpha (v : DVert) (t : List Str) : Except Err DVert :=
+  match num4 t with
+  | .error e => .error e
+  | .ok n => .ok { v with malpha := n }
+
+def whiteColors (v : DVert) : DVert := { v with colors := some [v3one, v3one, v3one, v3one] }
+
+/-- the arrays every displacement has, in the order the code reads them -/
+def dispVertsBase (size tcount : Nat) (cs : List KV) : Except Err (List DVert) :=
+  (applyRowset "normals" size 3 size updNormal cs (List.replicate (size * size) blankVert)).bind fun v =>
+  (applyRowset "offsets" size 3 size updOffset cs v).bind fun v =>
+  (applyRowset "offset_normals" size 3 size updOffsetNorm cs v).bind fun v =>
+  (applyRowset "alphas" size 1 size updAlpha cs v).bind fun v =>
+  (applyRowset "distances" size 1 size updDist cs v).bind fun v =>
+  applyRowset "triangle_tags" size 2 tcount updTri cs v
+
+/-- the multiblend arrays (only read when a `multiblend` child exists) -/
+def dispVertsMulti (size : Nat) (cs : List KV) (verts : List DVert) : Except Err (List DVert) :=
+  (applyRowset "multiblend_color_0" size 3 size (updColor 0) cs (verts.map whiteColors)).bind fun v =>
+  (applyRowset "multiblend_color_1" size 3 size (updColor 1) cs v).bind fun v =>
+  (applyRowset "multiblend_color_2" size 3 size (updColor 2) cs v).bind fun v =>
+  (applyRowset "multiblend_color_3" size 3 size (updColor 3) cs v).bind fun v =>
+  (applyRowset "multiblend" size 4 size updBlend cs v).bind fun v =>
+  applyRowset "alphablend" size 4 size updMalpha cs v
+
+def parseDispVerts (size tcount : Nat) (cs : List KV) : Except Err (List DVert) :=
+  (dispVertsBase size tcount cs).bind fun v =>
+  if cs.any (named "multiblend") then dispVertsMulti size cs v else .ok v
+
+def intTokens : List Str → Except Err (List Int)
+  | [] => .ok []
+  | t :: ts =>
+    match parseInt? t with
+    | none => .error .badInt
+    | some i =>
+      match intTokens ts with
+      | .error e => .error e
+      | .ok r => .ok (i :: r)
+
+/-- `allowed_verts`: the `"10"` form (NOT modelled: the 5 x int64 form of Strata Source). -/
+def parseAllowed (cs : List KV) : Except Err (List Int) :=
+  match findKey "allowed_verts" cs with
+  | none => .error .noAllowedVerts
+  | some k =>
+    match blockKids k with
+    | .error e => .error e
+    | .ok vertKey =>
+      if vertKey.any (named "10") then
+        match getLeaf "10" vertKey with
+        | some v => intTokens (splitWs v)
+        | none => .error .leafKv
+      else .ok []
+
+def parseDisp (cs : List KV) : Except Err Disp :=
+  if !(0 ≤ getInt "power" 4 cs && getInt "power" 4 cs ≤ 4) then .error .dispPower
+  else if !(0 ≤ getInt "flags" 0 cs && getInt "flags" 0 cs ≤ 15) then .error .dispFlags
+  else
+    match parseAllowed cs with
+    | .error e => .error e
+    | .ok allowed =>
+      if allowed.length != 10 then .error .allowedVerts
+      else
+        match parseDispVerts (if (getInt "power" 4 cs).toNat == 0 then 0 else dispSize (getInt "power" 4 cs).toNat)
+            (2 ^ (getInt "power" 4 cs).toNat) cs with
+        | .error e => .error e
+        | .ok verts =>
+          .ok { power := (getInt "power" 4 cs).toNat, pos := getV3 "startposition" v3zero cs,
+                elev := getFloat "elevation" (lit "0.0") cs, coll := flagToColl (getInt "flags" 0 cs).toNat,
+                subdiv := getBool "subdiv" false cs, allowed, verts }
 
 /-- a loop over children with an accumulator (`for x in kvs: …`), stopping at the first error. -/
 def foldE {σ} (step : σ → KV → Except Err σ) : σ → List KV → Except Err σ
@@ -1533,7 +1629,7 @@ def mapIdx {α β} (f : Nat → α → β) : Nat → List α → List β
   | i, a :: r => f i a :: mapIdx f (i + 1) r
 
 def projDisp (multiblend : Bool) (d : Disp) : Disp :=
-  let keep := multiblend && d.verts.any (fun v => !(v.blend.toks.all isZeroTok))
+  let keep := multiblend && hasBlend d.verts
   { d with verts := mapIdx (projVert keep (dispSize d.power)) 0 d.verts }
 
 def projSide (multiblend : Bool) (s : Side) : Side :=
